@@ -42,8 +42,9 @@ CLAIMED = {
             "passed to the emitter fits its 16/32-bit field (call-site obligations = no truncation) and that alignment errors are raised "
             "exactly when a stride/length/address is misaligned; exactly one kick-off word per operation, never NPU_OP_STOP.",
             PYVC_NOTE + " Ghost field `decoded` is updated by ghost statements at the two append sites (reviewed to mirror the decoder); "
-            "legal(op) ranges are the contract preconditions printed in the evidence; the IFM / IFM2 / OFM register groups, SHRAM and broadcast registers are under contract; generate_common / "
-            "per-op generators / generate_command_stream composition and the scaling generators are not.",
+            "legal(op) ranges are the contract preconditions printed in the evidence; the IFM / IFM2 / OFM register groups, SHRAM and broadcast registers are under contract; generate_common (the composed register table "
+            "of a Conv2D operation) is verified in the thorough tier only (10 minutes); per-op generators / generate_command_stream composition and the "
+            "scaling generators are not under contract.",
             "contract-based deductive verification (heap model with maps, ghost state, opaque invariants, modular calls)", "DESIGN.md 3/C06"),
     "C08": ("Unbounded proof (Python side): encode_bias is the inverse of the 80-bit record reader (40-bit two's-complement bias, 32-bit scale, "
             "6-bit shift, every byte in range); slice/core loops of encode_weight_and_scale_tensor (mechanical suffix slice, per core count and "
